@@ -280,8 +280,13 @@ pub fn __vx_filter_map_collect<'a, T, U, F: Fn(&'a T) -> Option<U>>(s: &'a [T], 
     requires forall|i: int| 0 <= i < s@.len() ==> call_requires(f, (&#[trigger] s@[i],)),
     ensures forall|g: spec_fn(T) -> Option<U>|
         (forall|i: int, o: Option<U>| 0 <= i < s@.len() && #[trigger] call_ensures(f, (&s@[i],), o) ==> o == g(s@[i]))
-        ==> r@ == #[trigger] filter_map_spec(s@, g)
+        ==> r@ == #[trigger] filter_map_spec(s@, g),
+        // the same through a view w of the results (e.g. Strings seen as character sequences)
+        forall|w: spec_fn(U) -> Seq<char>, g: spec_fn(T) -> Option<Seq<char>>| #![trigger r@.map_values(w), filter_map_spec(s@, g)]
+        (forall|i: int, o: Option<U>| 0 <= i < s@.len() && #[trigger] call_ensures(f, (&s@[i],), o) ==> opt_map(o, w) == g(s@[i]))
+        ==> r@.map_values(w) == filter_map_spec(s@, g)
 { s.iter().filter_map(f).collect() }
+pub open spec fn opt_map<U, W>(o: Option<U>, w: spec_fn(U) -> W) -> Option<W> { match o { Some(x) => Some(w(x)), None => None } }
 
 /// assumed std contract: Option::filter keeps the value iff the predicate holds for it
 pub assume_specification<T, P: FnOnce(&T) -> bool>[ Option::<T>::filter::<P> ](o: Option<T>, p: P) -> (r: Option<T>)
